@@ -11,9 +11,23 @@ fn native_dir() -> String {
     format!("{}/native", std::env::var("VERIF_DIR").unwrap_or_else(|_| "/verif".to_string()))
 }
 
+/// which classes of interpreter error belong to the property whose check runs the stage (a check only reports
+/// what its own property speaks of; anything else is printed as a note and counted as inconclusive)
+pub fn owns(prop: &str, sig: &str) -> bool {
+    match prop {
+        "C05" => sig.starts_with("miri/leak") || sig.starts_with("miri/panic") || sig.starts_with("miri/dangling-access") || sig.starts_with("miri/undefined-behaviour"),
+        "C13" => !sig.starts_with("miri/data-race"),
+        _ => true,
+    }
+}
+
 pub fn scenarios_for(prop: &str) -> Vec<&'static str> {
     match prop {
         "C04" => vec!["sync_rendezvous", "small_payload_paths", "drain_blocked_senders", "zst_and_padding", "async_send_sync_recv", "async_recv_busy_poll", "async_send_busy_poll", "drain_async_pending_senders", "iter_until_disconnect", "timed_handoff_races", "unbounded_burst", "zst_with_drop"],
+        // destroyed exactly once: heap-owning payloads make a leak or a second destruction an interpreter error
+        "C05" => vec!["sync_rendezvous", "sync_mpsc_cap1", "small_payload_paths", "timeouts", "timed_handoff_races", "close_with_buffered_and_blocked", "zst_with_drop", "cancel_recv_future", "cancel_send_future", "last_receiver_drop_releases_senders", "realtime_contention"],
+        "C13" => vec!["timeouts", "timed_handoff_races", "small_payload_paths", "close_with_buffered_and_blocked"],
+        "C15" => vec!["cancel_recv_future", "cancel_send_future", "stream_dropped_midway", "stream_spurious"],
         _ => vec![
             "sync_rendezvous",
             "sync_mpsc_cap1",
@@ -125,6 +139,11 @@ pub fn stage(prop: &str, tier: &str, base_seed: u64) -> (Vec<Value>, Value, bool
                 continue;
             }
             let (sig, first) = classify(&log);
+            if !owns(prop, &sig) {
+                eprintln!("note: miri scenario {} reported {} ({}), which is not what {} speaks of: not counted", sc, sig, first, prop);
+                per.insert(sc.to_string(), json!({"seeds_tried": tried, "ok": ok, "foreign_report": sig}));
+                continue;
+            }
             let dir = format!("{}/replays", std::env::var("VERIF_DIR").unwrap_or_else(|_| "/verif".to_string()));
             let _ = std::fs::create_dir_all(&dir);
             let path = format!("{}/{}-miri-{}-{}.json", dir, prop, sc, failing.unwrap_or(0));
